@@ -18,8 +18,8 @@ from harness import layera
 META = {
     "level": "translation_validation",
     "technique": "Coq-verified validator (exhaustive enumeration of valid original plans; propagation of compiled configuration sets through the real map-back table; proved: a true answer yields, for every valid original plan up to the bound, a valid compiled plan at most k steps longer that maps back to it modulo no-op steps) applied by vm_compute to the output of the real compilers",
-    "text": "LAYER A (proved for ALL problems of the modelled fragment, Props/C07.v and part files Props/C07_*.v, theorems C07_LA_*): quant_complete (same plan), sir_complete / btr_complete (same plan; the one hypothesis on the initial state is that the moved constraints hold in it), cer_complete and dcr_complete (a compiled plan, not longer, mapping back to the original modulo no-op steps; bound k = 0), dcrgoal_complete (bound k + 1), ground_complete, ncr_complete / utfr_complete / uinr_complete (same plan from related states), tcr regression / monitor completeness and the always / sometime plan-level equations, pipe_pipeline_certified (completeness composes, bounds add), each tied to the code by the structural correspondences of harness/layera.py and harness/layera_<compiler>.py (evidence keys layerA_*). LAYER B: complete_check_correct for all plans of any pair of problems; unsolvable_transfers (unsolvable compiled problem implies unsolvable original, up to the bound); complete_search_witness (a false answer names a valid original plan). The quantifier over plans is proved, the quantifier over problems is sampled.",
-    "note": "level stays translation_validation: PROVED for all problems of the instantaneous fragment (Layer A, Props/C07.v + part files Props/C07_*.v) = QuantifiersRemover (when no action is left out for conflicting expanded effects; otherwise finding C07-qr-forall-syntactic-conflict-action-dropped), StateInvariantsRemover, BoundedTypesRemover, ConditionalEffectsRemover (given C37_conflict_drop_sound's conclusion; otherwise finding C07-cer-syntactic-conflict-variant-dropped), DisjunctiveConditionsRemover without and with the auxiliary goal action (bound k+1, C07_pipe.v), Grounder, NegativeConditionsRemover (C07_ncr.v), UsertypeFluentsRemover (C07_utfr.v), UndefinedInitialNumericRemover (C07_uinr.v; the unguarded shapes are recorded findings), pipelines of certified stages (C07_pipe.v: completeness composes, bounds add); TrajectoryConstraintsRemover: regression completeness and monitor completeness only (C07_tcr.v); VALIDATED ONLY = TCR at plan level, durative actions, the other pipelines. Hypotheses as listed in C06's note. Layer B: validated, not proved for all problems. Reading (DESIGN.md 6.00): 'maps back to the same sequence' is modulo original steps that change no ground fluent (documented: variants/groundings without effects are discarded); bound k+1 only for compilers that add a goal-achieving action (DisjunctiveConditionsRemover and pipelines containing it). A compiler that rejects a problem as unsolvable (TrajectoryConstraintsRemover: constraint violated initially) is checked by searching the original for a valid plan. Strict documented semantics on both sides; witnesses double-checked with the real validator. No axioms.",
+    "text": "LAYER A (proved for ALL problems of the modelled fragment, Props/C07.v and part files Props/C07_*.v, theorems C07_LA_*): quant_complete (same plan), sir_complete / btr_complete (same plan; the one hypothesis on the initial state is that the moved constraints hold in it), cer_complete and dcr_complete (a compiled plan, not longer, mapping back to the original modulo no-op steps; bound k = 0), dcrgoal_complete (bound k + 1), ground_complete, ncr_complete / utfr_complete / uinr_complete (same plan from related states), tcr regression / monitor completeness and the plan-level equations of all five operators (single constraint), pipe_pipeline_certified (completeness composes, bounds add), each tied to the code by the structural correspondences of harness/layera.py and harness/layera_<compiler>.py (evidence keys layerA_*). LAYER B: complete_check_correct for all plans of any pair of problems; unsolvable_transfers (unsolvable compiled problem implies unsolvable original, up to the bound); complete_search_witness (a false answer names a valid original plan). The quantifier over plans is proved, the quantifier over problems is sampled.",
+    "note": "level stays translation_validation: PROVED for all problems of the instantaneous fragment (Layer A, Props/C07.v + part files Props/C07_*.v) = QuantifiersRemover (when no action is left out for conflicting expanded effects; otherwise finding C07-qr-forall-syntactic-conflict-action-dropped), StateInvariantsRemover, BoundedTypesRemover, ConditionalEffectsRemover (given C37_conflict_drop_sound's conclusion; otherwise finding C07-cer-syntactic-conflict-variant-dropped), DisjunctiveConditionsRemover without and with the auxiliary goal action (bound k+1, C07_pipe.v), Grounder, NegativeConditionsRemover (C07_ncr.v), UsertypeFluentsRemover (C07_utfr.v), UndefinedInitialNumericRemover (C07_uinr.v; the unguarded shapes are recorded findings), pipelines of certified stages (C07_pipe.v: completeness composes, bounds add); TrajectoryConstraintsRemover: regression and monitor completeness and the plan-level equations for a single constraint of each operator (C07_tcr.v); VALIDATED ONLY = TCR with several constraints, durative actions, the other pipelines. Hypotheses as listed in C06's note. Layer B: validated, not proved for all problems. Reading (DESIGN.md 6.00): 'maps back to the same sequence' is modulo original steps that change no ground fluent (documented: variants/groundings without effects are discarded); bound k+1 only for compilers that add a goal-achieving action (DisjunctiveConditionsRemover and pipelines containing it). A compiler that rejects a problem as unsolvable (TrajectoryConstraintsRemover: constraint violated initially) is checked by searching the original for a valid plan. Strict documented semantics on both sides; witnesses double-checked with the real validator. No axioms.",
 }
 
 
